@@ -221,13 +221,22 @@ def parse_coverage(out):
     return cov
 
 
+MAX_REJECTIONS_PER_CHUNK = 6
+
+
 def _validate_chunk(module_path, cfg, segs, tag, timeout, consts_env=None, coverage=False):
     """Validate a list of segments with one TLC run after another until all are
     explained or rejected.  Returns (accepted_count, [Rejection], states, wall, toolerr)."""
     accepted, rejs, states, wall = 0, [], 0, 0.0
     todo = list(segs)
     n = 0
+    _validate_chunk.unexamined = getattr(_validate_chunk, "unexamined", 0)
     while todo:
+        if len(rejs) >= MAX_REJECTIONS_PER_CHUNK:
+            # every rejection costs one more TLC run over the rest of the chunk; a change that breaks most histories
+            # would otherwise take hours.  The verdict is already "violated"; the rest is counted as unexamined.
+            _validate_chunk.unexamined += len(todo)
+            break
         n += 1
         path = os.path.join(OUT, "traces", "%s-%d-%d.ndjson" % (tag, os.getpid(), n))
         flat = [e for s in todo for e in s]
@@ -279,6 +288,7 @@ def validate_trace(module_path, cfg, events, tag, parallel=8, chunk_events=6000,
         chunks.append(cur)
     res = {"accepted": 0, "rejections": [], "states": 0, "segments": len(segs), "events": len(events), "tlc_wall": 0.0}
     _validate_chunk.cov = {}
+    _validate_chunk.unexamined = 0
     with ThreadPoolExecutor(max_workers=parallel) as ex:
         # the first chunk is also run with -coverage 1: per-action counts show which spec actions the
         # recorded history exercised (an action that is never taken was never checked)
@@ -292,6 +302,9 @@ def validate_trace(module_path, cfg, events, tag, parallel=8, chunk_events=6000,
             res["states"] += st
             res["tlc_wall"] += w
     res["action_coverage"] = dict(_validate_chunk.cov)
+    res["unexamined"] = _validate_chunk.unexamined
+    if res["unexamined"]:
+        log("[trace] %d segments left unexamined after %d rejections per chunk" % (res["unexamined"], MAX_REJECTIONS_PER_CHUNK))
     return res
 
 
